@@ -26,6 +26,18 @@ def P():
     return polymath
 
 
+def family(e):
+    """(family name, site): TypeError / ValueError / IndexError also for their subclasses (NumPy's
+    UFuncTypeError is a TypeError, AxisError a ValueError and IndexError); anything else by its own name"""
+    name, site = lib.exc_family(e)
+    if isinstance(e, Warning):
+        return 'Warning:' + name, site
+    for fam in (TypeError, ValueError, IndexError):
+        if isinstance(e, fam):
+            return fam.__name__, site
+    return name, site
+
+
 # ---------------------------------------------------------------------------
 # targets
 # ---------------------------------------------------------------------------
@@ -131,10 +143,10 @@ def apply_fault(arg, fault, target, op, Pm, want_shape):
         return {'a': 1}, True
     if fault == 'units':
         if isinstance(arg, Pm.Qube) and arg.UNITS_OK:
-            a = arg.copy()
-            a.set_units(Pm.Units.SEC if x.units is not None else None)
             if x.units is None:
                 return arg, False
+            a = arg.without_units().copy()
+            a.set_units(Pm.Units.SEC)
             return a, True
         return arg, False
     if fault == 'numer':
@@ -161,7 +173,7 @@ def apply_fault(arg, fault, target, op, Pm, want_shape):
         if not x.is_int():
             return arg, False
         if isinstance(arg, Pm.Qube):
-            return arg.as_float() + 0.5, True
+            return type(arg)(np.asarray(arg._values_, dtype=float) + 0.5, arg._mask_, drank=len(arg.denom)), True
         if isinstance(arg, np.ndarray):
             return arg.astype(float) + 0.5, True
         return 2.5, True
@@ -175,7 +187,7 @@ def apply_fault(arg, fault, target, op, Pm, want_shape):
             bad = (want_shape[0] + 1,) + tuple(want_shape[1:])
         if isinstance(arg, Pm.Qube):
             vals = np.ones(bad + arg.item, dtype=np.asarray(arg._values_).dtype)
-            return type(arg)(vals), True
+            return type(arg)(vals, drank=len(arg.denom)), True
         if isinstance(arg, np.ndarray):
             item = arg.shape[len(arg.shape) - len(x.item):] if x.item else ()
             return np.ones(bad + tuple(x.item), dtype=arg.dtype), True
@@ -191,6 +203,38 @@ def apply_fault(arg, fault, target, op, Pm, want_shape):
                 return arg, False
         return arg, False
     raise ValueError(fault)
+
+
+def present(arg, x, op, want, ro, Pm):
+    """the faults really present in the final argument (a later fault can undo an earlier one)"""
+    out = ['readonly'] if ro else []
+    if not isinstance(arg, (Pm.Qube, np.ndarray, bool, int, float, np.number, np.bool_)):
+        return out + ['type']
+    if isinstance(arg, Pm.Qube):
+        ua = None if arg.units is None else tuple(arg.units.exponents)
+        ux = None if x.units is None else tuple(x.units.exponents)
+        if ua is not None and ux is not None and ua != ux:
+            out.append('units')
+        if (arg.numer != ()) if op in ('imul', 'itruediv', 'ifloordiv', 'imod') else (arg.numer != x.numer):
+            out.append('numer')
+        if arg.denom != x.denom:
+            out.append('denom')
+        if x.is_int() and arg.is_float():
+            out.append('kind')
+        ashape = arg.shape
+        if 't' in arg.derivs and 't' in x.derivs and arg.derivs['t'].denom != x.derivs['t'].denom:
+            out.append('derivdenom')
+    else:
+        a = np.asarray(arg)
+        if x.is_int() and a.dtype.kind == 'f':
+            out.append('kind')
+        ashape = a.shape[:a.ndim - len(x.item)] if a.ndim >= len(x.item) else ()
+    try:
+        if np.broadcast_shapes(tuple(ashape), tuple(want)) != tuple(want):
+            out.append('shape')
+    except ValueError:
+        out.append('shape')
+    return [f for f in FAULTS if f in out]
 
 
 def do_mutation(x, op, arg):
@@ -239,9 +283,13 @@ def run_case(c, Pm):
     for f in c['faults']:
         if f == 'readonly':
             continue
-        arg, ok = apply_fault(arg, f, x, op, Pm, want)
+        try:
+            arg, ok = apply_fault(arg, f, x, op, Pm, want)
+        except Exception:
+            ok = False
         if ok:
             applied.append(f)
+    applied = present(arg, x, op, want, ro, Pm)
     before = snap(x)
     with warnings.catch_warnings():
         warnings.simplefilter('error')
@@ -249,9 +297,7 @@ def run_case(c, Pm):
             do_mutation(x, op, arg)
             out = ('ok',)
         except Exception as e:
-            name, site = lib.exc_family(e)
-            if isinstance(e, Warning):
-                name = 'Warning:' + name
+            name, site = family(e)
             out = ('exc', name, site)
     after = snap(x)
     return {'outcome': out, 'changed': before != after, 'applied': applied,
@@ -349,7 +395,7 @@ NONMUT = {'add': lambda a, b: a + b, 'sub': lambda a, b: a - b, 'mul': lambda a,
           'truediv': lambda a, b: a / b, 'floordiv': lambda a, b: a // b, 'mod': lambda a, b: a % b,
           'radd': lambda a, b: b + a, 'rsub': lambda a, b: b - a, 'rmul': lambda a, b: b * a,
           'lt': lambda a, b: a < b, 'eq': lambda a, b: a == b, 'and': lambda a, b: a & b,
-          'pow': lambda a, b: a ** b, 'getitem': lambda a, b: a[b], 'maximum': lambda a, b: type(a).maximum(a, b),
+          'pow': lambda a, b: a ** b, 'getitem': lambda a, b: a[b], 'maximum': lambda a, b: a.maximum(a, b) if type(a).__name__ == 'Scalar' else a + b,
           'dot': lambda a, b: a.dot(b), 'cross': lambda a, b: a.cross(b), 'outer': lambda a, b: a.outer(b)}
 
 
@@ -359,7 +405,7 @@ NONMUT = {'add': lambda a, b: a + b, 'sub': lambda a, b: a - b, 'mul': lambda a,
 FAULT_COQ = {'readonly': 'FReadonly', 'type': 'FType', 'units': 'FUnits', 'numer': 'FNumer', 'denom': 'FDenom',
              'kind': 'FKind', 'shape': 'FShape', 'derivdenom': 'FDerivDenom'}
 OPFAM = {'iadd': 'OAdd', 'isub': 'OAdd', 'imul': 'OMul', 'set_int': 'OSet', 'set_slice': 'OSet',
-         'set_mask': 'OSet', 'set_ellipsis': 'OSetAll', 'set_array': 'OSet'}
+         'set_mask': 'OSetMask', 'set_ellipsis': 'OSetAll', 'set_array': 'OSet'}
 FORM_COQ = {'number': 'ANumber', 'ndarray': 'ANdarray', 'object': 'AObject'}
 ERR_COQ = {'TypeError': 'TypeErr', 'ValueError': 'ValueErr', 'IndexError': 'IndexErr'}
 
@@ -431,9 +477,7 @@ def run(ctx):
                             fn(x, arg)
                             out = ('ok',)
                         except Exception as e:
-                            name, site = lib.exc_family(e)
-                            if isinstance(e, Warning):
-                                name = 'Warning:' + name
+                            name, site = family(e)
                             out = ('exc', name, site)
                     c = {'nonmut': opn, 'target': t, 'form': form, 'faults': [f]}
                     ctx.note_case(c, True)
@@ -451,9 +495,7 @@ def run(ctx):
                 fn()
                 out = ('ok',)
             except Exception as e:
-                nm, site = lib.exc_family(e)
-                if isinstance(e, Warning):
-                    nm = 'Warning:' + nm
+                nm, site = family(e)
                 out = ('exc', nm, site)
         c = {'option_call': name}
         ctx.note_case(c, True)
